@@ -99,6 +99,7 @@ class JsonStub:
         from copy import deepcopy
 
         if _has_shadow(obj):
+            _check_jsonable(obj)
             return JsonText(deepcopy(obj))
         return self._j.dumps(obj, *a, **k)
 
@@ -108,6 +109,23 @@ class JsonStub:
         if isinstance(s, JsonText):
             return deepcopy(s.obj)
         return self._j.loads(s, *a, **k)
+
+
+def _check_jsonable(o):
+    """json.dumps raises TypeError for anything but dict / list / tuple / str / int / float / bool / None"""
+    if o is None or isinstance(o, (str, int, float, bool, SInt, SRatio, SBool)) or type(o).__name__ == "SFloat":
+        return
+    if isinstance(o, dict):
+        for k, v in o.items():
+            if not (k is None or isinstance(k, (str, int, float, bool))):
+                raise TypeError("keys must be str, int, float, bool or None, not %s" % type(k).__name__)
+            _check_jsonable(v)
+        return
+    if isinstance(o, (list, tuple)):
+        for v in o:
+            _check_jsonable(v)
+        return
+    raise TypeError("Object of type %s is not JSON serializable" % type(o).__name__)
 
 
 def _has_shadow(o):
@@ -376,7 +394,34 @@ class Parser:
             rows.append(vals)
             if not self.accept_op(","):
                 break
-        return ("insert", table, cols, rows)
+        upsert = None
+        if self.accept_kw("ON", "CONFLICT"):
+            target = None
+            if self.accept_op("("):
+                target = [self.ident()]
+                while self.accept_op(","):
+                    target.append(self.ident())
+                self.expect_op(")")
+            t = self.next()
+            if t != ("id", "DO") and not (t[0] == "id" and t[1].upper() == "DO"):
+                raise Unsupported("ON CONFLICT without DO")
+            if self.accept_kw("UPDATE"):
+                self.expect_kw("SET")
+                sets = []
+                while True:
+                    col = self.ident()
+                    self.expect_op("=")
+                    sets.append((col, self.expr()))
+                    if not self.accept_op(","):
+                        break
+                where = self.expr() if self.accept_kw("WHERE") else None
+                upsert = ("update", target, sets, where)
+            else:
+                t = self.next()
+                if not (t[0] == "id" and t[1].upper() == "NOTHING"):
+                    raise Unsupported("ON CONFLICT DO %r" % (t,))
+                upsert = ("nothing", target, None, None)
+        return ("insert", table, cols, rows, upsert)
 
     def update(self):
         self.expect_kw("UPDATE")
@@ -744,6 +789,7 @@ class Connection:
         self.max_uncommitted = 0
         self.commit_points = []  # index into self.log at each commit
         self.write_log = []  # index into self.log of each elementary write
+        self.rollbacks = []  # number of buffered elementary writes discarded by each rollback
         self.closed = False
         self.total_changes = 0
 
@@ -764,6 +810,7 @@ class Connection:
         self._commit()
 
     def rollback(self):
+        self.rollbacks.append(self.uncommitted_writes)
         self.tables = {k: t.copy() for k, t in self.committed.items()}
         self.uncommitted_writes = 0
         self.in_transaction = False
@@ -1279,7 +1326,7 @@ class Exec:
         return nid
 
     def insert(self, st):
-        _, tname, cols, rows = st
+        _, tname, cols, rows, upsert = st
         t = self.table(tname)
         last = None
         n = 0
@@ -1294,9 +1341,23 @@ class Exec:
                     row[cd["name"]] = self.ev(cd["default"], [])
             if t.pk is not None and row[t.pk] is not None:
                 rid = row[t.pk]
+                conflict = None
                 for other in t.rows:
                     if truth(cmp_values("=", other["__rowid__"], rid)):
+                        conflict = other
+                        break
+                if conflict is not None:
+                    if upsert is None or (upsert[1] is not None and upsert[1] != [t.pk]):
                         raise IntegrityError("UNIQUE constraint failed: %s.%s" % (t.name, t.pk))
+                    if upsert[0] == "update":
+                        sc = [(tname, t, conflict), ("excluded", None, dict(row))]
+                        if upsert[3] is None or truth(self.ev(upsert[3], sc)):
+                            newvals = {c: coerce(self.ev(e, sc), next(cd for cd in t.cols if cd["name"] == c)) for c, e in upsert[2]}
+                            conflict.update(newvals)
+                            self.conn._wrote(1)
+                            n += 1
+                    last = conflict["__rowid__"]
+                    continue
             else:
                 rid = self.new_rowid(t)
                 if t.pk is not None:
@@ -1462,7 +1523,15 @@ def cmp_endtext(op, a, b):
     end = S.dt_us(b.dt) * pd + pn * 1000000  # microseconds * pd  (duration is in seconds)
     start_s = start * pd
     band = 1000 * pd
-    free = z3.Bool(E.ENG.fresh_name("strftime_edge"))
+    key = ("strftime_edge", str(end), str(start_s))
+    free = E.ENG.declared.get(key)
+    if free is None:
+        # deterministic per (row, window edge): the same text comparison gives the same answer in every query
+        free = z3.Bool(E.ENG.fresh_name("strftime_edge"))
+        E.ENG.declared[key] = free
+    inband = z3.And(end < start_s + band, end >= start_s - band)
+    E.ENG.noise_used = True
+    E.ENG.noise_sites.append(inband)
     le = z3.If(end >= start_s + band, True, z3.If(end < start_s - band, False, free))  # a <= rendered(b)
     if op in ("<=", "<"):
         return le
